@@ -1,0 +1,17 @@
+//go:build verif
+
+package aggoracle
+
+import "context"
+
+// VerifTick runs exactly what one iteration of the Start loop runs when the ticker fires:
+// processLatestGER and, on error, handleGERProcessingError. blockNumToFetch plays the role of the
+// loop-local variable of Start (the caller keeps it across ticks, starting at 0).
+// The error returned by processLatestGER is handed back only so that it can be observed.
+func (a *AggOracle) VerifTick(ctx context.Context, blockNumToFetch *uint64) error {
+	err := a.processLatestGER(ctx, blockNumToFetch)
+	if err != nil {
+		a.handleGERProcessingError(err, *blockNumToFetch)
+	}
+	return err
+}
